@@ -187,6 +187,25 @@ TIES = {
                            "theorems": ["grmsg_owner", "generic_reads_written_frames", "C01_source_generic_triples", "C01_source_generic_quads",
                                         "C01_source_generic_graphs", "C04_source_generic_reads_valid_streams", "C14_source_generic_triples",
                                         "C04_source_generic_flat_parser"]},
+    # the writer drivers of the generic integration (namespace_declarations, triples / quads / graphs_stream_frames, split_to_graphs) and
+    # the GenericStatementSink they read, translated, against the model's drivers: frames yielded, how the run ends, the stream left
+    "generic_drivers": {"sources": ["pyjelly/integrations/generic/serialize.py", "pyjelly/integrations/generic/generic_sink.py",
+                                    "pyjelly/serialize/streams.py", "pyjelly/serialize/flows.py", "pyjelly/serialize/encode.py"],
+                        "unit": "generic_serialize", "gen": "GenericSerializeGen", "tie": "GenericDriversTie",
+                        "needs": ["lookup_enc", "lookup_dec", "options", "encode", "encode_stmt", "flows", "streams", "decode", "decoder_base", "generic_sink",
+                                  "generic_serialize"],
+                        "theorems": ["source_namespace_declarations_is_model", "source_triples_stream_frames_is_model",
+                                     "source_quads_stream_frames_is_model", "source_split_to_graphs_is_model", "source_graphs_stream_frames_is_model"]},
+    # C01 / C14 end to end on translated source: the translated driver's yields through the translated flat parser give back the
+    # objects of the declarations and statements (no model in the conclusion)
+    "generic_end_to_end": {"sources": ["pyjelly/integrations/generic/serialize.py", "pyjelly/integrations/generic/parse.py",
+                                       "pyjelly/integrations/generic/generic_sink.py", "pyjelly/serialize/encode.py", "pyjelly/parse/decode.py",
+                                       "pyjelly/serialize/streams.py", "pyjelly/serialize/flows.py"],
+                           "unit": "generic_serialize", "gen": "GenericSerializeGen", "tie": "GenericEndToEnd", "props": ["C01", "C14"],
+                           "needs": ["lookup_enc", "lookup_dec", "options", "encode", "encode_stmt", "flows", "streams", "decode", "decoder_base", "decoder",
+                                     "generic_sink", "generic_parse", "generic_serialize", "generic_round_trip", "generic_drivers"],
+                           "theorems": ["constructed_stream_is_related", "C01_end_to_end_generic_triples", "C01_end_to_end_generic_quads",
+                                        "C01_end_to_end_generic_graphs"]},
     # clauses of C16 / C13 directly about the translated Decoder, for ANY adapter (no model in the statement, nothing assumed of the adapter)
     "decoder_source": {"sources": ["pyjelly/parse/decode.py"], "unit": "decode", "gen": "DecodeGen", "tie": "DecoderSource", "needs": [],
                        "needs_gen": ["lookup_dec", "options"], "props": ["C16", "C13"],
@@ -228,8 +247,9 @@ def _static_digest() -> str:
         for p in sorted((VERIF / "coq" / d).glob("*.v")):
             h.update(p.name.encode())
             h.update(p.read_bytes())
-    h.update((VERIF / "translate" / "py2v.py").read_bytes())
-    h.update((VERIF / "translate" / "family.py").read_bytes())
+    for p in sorted((VERIF / "translate").glob("*.py")):
+        h.update(p.name.encode())
+        h.update(p.read_bytes())
     return h.hexdigest()
 
 
@@ -366,6 +386,9 @@ def _tx_check(ctx, repo: str, n: int, reader: bool, writer: bool) -> tuple[str |
             wcases, wstats = txcheck.gen_writer_cases(_C, n)
             cases += wcases
             stats["writer"] = wstats
+            dcases, dstats = txcheck.gen_driver_cases(_C, n)
+            cases += dcases
+            stats["drivers"] = dstats
         os.mkdir(f"{tmpd}/cases")
         (Path(tmpd) / "cases" / "TxCases.v").write_text(txcheck.coq_file(cases))
         rc, out = sh(f"cd {VERIF}/coq && timeout 1500 coqc {q} -Q {tmpd}/cases PJ.Tx {tmpd}/cases/TxCases.v", timeout=1600)
@@ -377,7 +400,7 @@ def _tx_check(ctx, repo: str, n: int, reader: bool, writer: bool) -> tuple[str |
     k = (int(m.group(1)) - 5) // 2 if m else -1
     bad = cases[k][:400] + " ... = " + cases[k][cases[k].rfind("] = ["):][:400] if 0 <= k < len(cases) else "?"
     return (f"translation cross-check: the translated source (generated Gallina of the reader chain -- options_from_frame, the generic adapters, "
-            f"Decoder.iter_rows -- or of the writer chain -- the options, TermEncoder with the generic dispatchers, the Stream classes and flows -- "
+            f"Decoder.iter_rows -- or of the writer chain -- the options, TermEncoder with the generic dispatchers, the Stream classes and flows, the generic drivers over a GenericStatementSink -- "
             f"evaluated by vm_compute) and the real code of this tree differ on a stream -- the translator or coq/tie/PyPrims.v does not describe "
             f"this source: {bad} :: {out[-200:]}"), len(cases), stats
 
@@ -428,13 +451,18 @@ def source_ties(ctx, po: dict, pid: str) -> list[str]:
         elif tx_n:
             ctx.report.count("translation-cross-check/streams", tx_n)
             w = tx_stats.get("writer")
+            dr = tx_stats.get("drivers")
             ctx.report.notes.append("translation cross-check: the generated Gallina, evaluated by vm_compute, against the real code of this tree"
                                     + (f"; reader chain (options_from_frame, parse_jelly_flat with the generic adapters and Decoder.iter_rows): same yields and same exception classes on "
                                        f"{tx_stats.get('valid', 0)} streams of the reference encoder as they are and {tx_stats.get('mutated', 0)} with one mutation "
                                        f"({tx_stats.get('yields', 0)} objects yielded; exceptions compared: {tx_stats.get('exceptions', {})})" if "valid" in tx_stats else "")
                                     + (f"; writer chain (options, TermEncoder with the generic dispatchers, TripleStream / QuadStream, flows): same frames, field for "
                                        f"field, and same exception classes on {w['streams']} random configurations and statement lists ({w['frames']} frames; "
-                                       f"exceptions compared: {w['exceptions']})" if w else ""))
+                                       f"exceptions compared: {w['exceptions']})" if w else "")
+                                    + (f"; writer drivers (GenericStatementSink with bind / add, then triples_stream_frames / quads_stream_frames / graphs_stream_frames "
+                                       f"with split_to_graphs, consumed to the end or to the exception): same frames and same exception classes on {dr['streams']} sinks "
+                                       f"({dr['by_driver']}; {dr['mixed_sinks']} holding a statement of the other kind; {dr['frames']} frames; exceptions compared: {dr['exceptions']})"
+                                       if dr else ""))
     if prim_bad:
         po["broken"].append(prim_bad)
     else:
